@@ -131,6 +131,9 @@ func runCheck(id, tier, replay string) int {
 	var hs []HarnessSpec
 	pkgSet := map[string]bool{}
 	for _, h := range spec.Harnesses {
+		if h.Tier == "manual" {
+			continue // kept for development runs (-run); too long for a registered tier
+		}
 		if tier == "thorough" || h.Tier == "quick" || h.Tier == "" {
 			hs = append(hs, h)
 			pkgSet[h.Pkg] = true
